@@ -1,7 +1,7 @@
 (* Model of binary/proto/proto.go: packageToProto (without the metadata oneof) and the package
    part of ScanResultToProto. *)
 From Coq Require Import List NArith ZArith Bool.
-From Scalibr Require Import Convert.Bytes Convert.Purl Convert.Pkg.
+From Scalibr Require Import Convert.Bytes Convert.Purl Convert.Pkg Convert.Generated_ProtoMeta.
 Import ListNotations.
 
 Record proto_purl := {
@@ -12,6 +12,36 @@ Record proto_pkg := {
   pr_name : bytes; pr_version : bytes; pr_source : option (bytes * bytes);
   pr_purl : option proto_purl; pr_ecosystem : bytes; pr_locations : list bytes;
   pr_extractor : bytes; pr_annotations : list Z; pr_layer : option proto_layer }.
+
+(* ---- setProtoMetadata: which oneof case the type switch selects for the dynamic type of Package.Metadata.
+   A Go type switch takes the first clause whose type is identical to the dynamic type (pointer-to-T and T differ).
+   The clause table is regenerated from binary/proto/proto.go on every run. None = no clause: the proto
+   carries no metadata. *)
+Definition meta_type := (bytes * bool)%type.      (* package path ++ "." ++ type name, is-pointer *)
+Fixpoint case_lookup (t : meta_type) (l : list (bytes * bool * bytes)) : option bytes :=
+  match l with
+  | [] => None
+  | (n, p, c) :: r => if beq (fst t) n && Bool.eqb (snd t) p then Some c else case_lookup t r
+  end.
+Definition proto_case_of (t : meta_type) : option bytes := case_lookup t proto_cases.
+(* nil metadata: the switch has no nil clause *)
+Definition set_proto_metadata_case (m : option meta_type) : option bytes :=
+  match m with None => None | Some t => proto_case_of t end.
+
+(* metadata types that extractor sources store into Package.Metadata but setProtoMetadata has no clause for
+   (known on the current tree; the finite theorem every_emitted_metadata_type_has_proto_case_on_D excludes exactly these) *)
+Definition s_javalockfile_Metadata : bytes := (* extractor/filesystem/language/java/javalockfile.Metadata *)
+  [101;120;116;114;97;99;116;111;114;47;102;105;108;101;115;121;115;116;101;109;47;108;97;110;103;117;97;103;101;47;106;97;118;97;47;106;97;118;97;108;111;99;107;102;105;108;101;46;77;101;116;97;100;97;116;97]%N.
+Definition s_osv_DepGroupMetadata : bytes := (* extractor/filesystem/osv.DepGroupMetadata *)
+  [101;120;116;114;97;99;116;111;114;47;102;105;108;101;115;121;115;116;101;109;47;111;115;118;46;68;101;112;71;114;111;117;112;77;101;116;97;100;97;116;97]%N.
+Definition s_netports_Metadata : bytes := (* extractor/standalone/os/netports.Metadata *)
+  [101;120;116;114;97;99;116;111;114;47;115;116;97;110;100;97;108;111;110;101;47;111;115;47;110;101;116;112;111;114;116;115;46;77;101;116;97;100;97;116;97]%N.
+Definition known_no_proto_case : list meta_type :=
+  [ (s_javalockfile_Metadata, false);   (* java/pomxmlnet stores the struct by value; the clause is for the pointer *)
+    (s_osv_DepGroupMetadata, false);    (* lockfile extractors' dependency-group metadata *)
+    (s_netports_Metadata, true) ].      (* standalone os/netports *)
+Definition meta_type_eqb (a b : meta_type) : bool := beq (fst a) (fst b) && Bool.eqb (snd a) (snd b).
+Definition in_D_meta (t : meta_type) : bool := negb (existsb (meta_type_eqb t) known_no_proto_case).
 
 (* int32(x) for a Go int *)
 Definition wrap32 (z : Z) : Z := ((z + 2147483648) mod 4294967296 - 2147483648)%Z.
